@@ -55,10 +55,24 @@ def make_world(nfc, cfg):
             return 0
     sil = t4t.T4TSilicon(app, tech=cfg["tech"], uid=b"\x08\x11\x22\x33", fsci=cfg["fsci"], fwi=cfg["fwi"],
                          chunk=cfg["chunk"], wtx_plan=plan)
+    if cfg["tech"] == "A" and cfg.get("ats", "full") != "full":
+        # standard-conformant ATS variants: absent interface bytes mean the defaults FSCI 2 (FSC 32) and FWI 4
+        f = min(cfg["fsci"], 8)
+        sil.ats_override = {"tl-only": b"\x01", "t0-only": bytes([2, f]),
+                            "no-ta": bytes([4, 0x60 | f, cfg["fwi"] << 4, 0x02]),
+                            "ta-only": bytes([3, 0x10 | f, 0x00]),
+                            "hist": bytes([6, 0x20 | f, cfg["fwi"] << 4, 0x80, 0x01, 0x02])}[cfg["ats"]]
     w = World(nfc, [sil], max_send=cfg["max_send"], max_recv=cfg["max_recv"])
     w.silicon = sil
     w.app = app
     return w
+
+
+def eff_fsci(cfg):
+    """the frame size the card really has: FSCI 2 when its ATS carries no format byte"""
+    if cfg["tech"] == "A" and cfg.get("ats") == "tl-only":
+        return 2
+    return min(cfg["fsci"], 8)
 
 
 def one_exchange(nfc, cfg, apdu, script):
@@ -90,7 +104,7 @@ def one_exchange(nfc, cfg, apdu, script):
             "executed": [a for a in w.app.executed[nexec0:]],
             "fired": fired,
             "max_block": w.silicon.max_block_seen,
-            "fsc": t4t.FSC_TABLE[min(cfg["fsci"], 8)],
+            "fsc": t4t.FSC_TABLE[eff_fsci(cfg)],
             "n_retry": tag._dep.n_retry_nak,
             "miu": tag._dep.miu,
             "log": [(i - base, fn, (c or b"")[:2].hex(), (r or b"")[:2].hex() if r else None)
@@ -113,7 +127,8 @@ def run_one(sim, params):
         "wtxm": sim.pick("wtxm", [1, 2, 59]),
         "wtx_kinds": sim.pick("wtx_kinds", [("answer",), ("answer", "chain"), ("ack", "answer", "chain"), ("chain",)]),
     }
-    fsc = t4t.FSC_TABLE[min(cfg["fsci"], 8)]
+    cfg["ats"] = sim.wpick("ats", [(6, "full"), (1, "tl-only"), (1, "t0-only"), (1, "no-ta"), (1, "ta-only"), (1, "hist")])
+    fsc = t4t.FSC_TABLE[eff_fsci(cfg)]
     miu = min(fsc, cfg["max_send"]) - 3
     # command length around multiples of the block payload, response likewise
     k = sim.wpick("cmd.k", [(4, 1), (3, 2), (2, 3), (1, 5)])
